@@ -18,7 +18,7 @@ SHARD = 150
 
 RULE = ("case = 2-4 operand fibers (stored coordinates ints or tuples of ints of one arity, payloads leaves "
         "or sub-fibers of depth <= 2, per coordinate absent / explicit default or empty sub-fiber / populated, "
-        "leaf default 0 or 3, rank format C or U with an explicit active range, unowned or root of a tensor) + "
+        "leaf default 0, 3 or None (sentinel; stored zeros are then present elements), rank format C or U with an explicit active range, unowned or root of a tensor) + "
         "mixed-arity flag; observation = per operator (a&b, b&a, a|b, a^b, a-b, intersection, union, "
         "leader-follower) the list of (coordinate, mask, origin of every delivered payload: position in the "
         "operand's payload list found with `is`, or snapshot of a new object), distinctness of the new objects, "
@@ -51,18 +51,21 @@ def gen_operand(rng, arity, depth, d, span, style):
     """style: 'C', 'U', 'owned', 'ownedU'; stored coordinates within 0..span-1 per component"""
     p_absent = rng.choice([0.0, 0.2, 0.5, 0.5, 0.8, 1.0])
     p_zero = rng.choice([0.0, 0.0, 0.2, 0.5, 1.0])
+    # default None (sentinel U.NONE_D): nothing is an empty leaf value; the "explicit default" class of
+    # the generator then stores zeros, which are ordinary present elements
+    dz = 0 if d == U.NONE_D else d
     es = []
     for c in itertools.product(range(span), repeat=arity):
         if rng.random() < p_absent:
             continue
         if depth == 1:
-            v = d if rng.random() < p_zero else rng.choice([x for x in range(1, 10) if x != d])
+            v = dz if rng.random() < p_zero else rng.choice([x for x in range(1, 10) if x != dz])
             es.append([list(c), v])
         else:
             if rng.random() < p_zero:
-                sub = rng.choice([[], [[rng.randint(0, 2), d]]]) if depth == 2 else []
+                sub = rng.choice([[], [[rng.randint(0, 2), dz]]]) if depth == 2 else []
             else:
-                sub = U.gen_fiber(rng, depth - 1, [3] * (depth - 1), d)
+                sub = U.gen_fiber(rng, depth - 1, [3] * (depth - 1), dz)
             es.append([list(c), sub])
     if arity > 1 and len(es) > 7:
         keep = sorted(rng.sample(range(len(es)), 7))
@@ -74,9 +77,12 @@ def gen_operand(rng, arity, depth, d, span, style):
             "owned": style in ("owned", "ownedU"), "depth": depth}
 
 
-def gen_case(rng, k=None, mixed=False, owned=False):
+def gen_case(rng, k=None, mixed=False, owned=False, none=False):
     depth = rng.choice([2, 2, 3]) if owned else rng.choice([1, 1, 2, 2, 3])
     d = rng.choice([0, 0, 0, 3])
+    if none:
+        c = _gen_case_none(rng, k, mixed, owned)
+        return c
     if mixed:
         ar = rng.sample([1, 2, 3], 2)
         span = 3
@@ -92,6 +98,48 @@ def gen_case(rng, k=None, mixed=False, owned=False):
     ops = [gen_operand(rng, arity, depth, d if rng.random() < 0.8 else rng.choice([0, 3]), span, rng.choice(styles))
            for _ in range(k)]
     return {"ops": ops, "mixed": False}
+
+
+def _gen_case_none(rng, k, mixed, owned):
+    """theme T1: operands whose default is None ("no empty value", sentinel U.NONE_D) and that store zeros;
+    mostly all operands, sometimes mixed with default-0 operands"""
+    depth = rng.choice([2, 2, 3]) if owned else rng.choice([1, 1, 1, 2, 2, 3])
+    dd = lambda: U.NONE_D if rng.random() < 0.8 else 0
+    if mixed:
+        ar = rng.sample([1, 2, 3], 2)
+        return {"ops": [gen_operand(rng, ar[i], depth, dd(), 3, "C") for i in range(2)], "mixed": True}
+    k = k or rng.choice([2, 2, 2, 3, 4])
+    arity = 1 if owned else rng.choice([1, 1, 1, 2])
+    span = rng.randint(1, 6) if arity == 1 else 3
+    styles = ["C", "C", "owned", "U", "ownedU"] if arity == 1 else ["C"]
+    if owned:
+        styles = ["owned", "owned", "owned", "ownedU"]
+    ops = [gen_operand(rng, arity, depth, dd(), span, rng.choice(styles)) for _ in range(k)]
+    if not any(o["d"] == U.NONE_D for o in ops):
+        ops[0]["d"] = U.NONE_D
+    return {"ops": ops, "mixed": False}
+
+
+def has_none(case):
+    return any(o["d"] == U.NONE_D for o in case["ops"])
+
+
+def exhaustive_pairs_none():
+    """every pair of leaf fibers over coordinates 0..2 x {absent, stored 0, value}, both with default None,
+    compressed and uncompressed a"""
+    opts = list(itertools.product([None, 0, 1], repeat=3))
+    cases = []
+    for aU in (False, True):
+        for x in opts:
+            for y in opts:
+                ops = []
+                for j, cfg in enumerate((x, y)):
+                    es = [[[c], (0 if v == 0 else 5 + c)] for c, v in enumerate(cfg) if v is not None]
+                    isU = aU and j == 0
+                    ops.append({"es": es, "d": U.NONE_D, "U": isU, "lo": 0, "hi": 3 if isU else 0,
+                                "owned": False, "depth": 1})
+                cases.append({"ops": ops, "mixed": False})
+    return cases
 
 
 def delivers(o):
@@ -146,6 +194,28 @@ def boundary_cases():
         {"ops": [op([[[1], sub2(0)]], U=True, lo=0, hi=3, owned=True, depth=2),
                  op([[[0], sub2(1)], [[2], []]], owned=True, depth=2)], "mixed": False},
     ]
+    # theme T1: default None, stored zeros are present elements
+    N = U.NONE_D
+    Nz = op([[[0], 0], [[2], 5]], d=N)
+    Ny = op([[[0], 7], [[1], 0]], d=N)
+    NE = op([], d=N)
+    N0 = op([[[1], 0]], d=N)
+    NT = op([[[1, 2], 0], [[3, 0], 4]], d=N)
+    zsub = lambda *cs: [[c, 0] for c in cs]
+    cases += [
+        {"ops": [Nz, Ny], "mixed": False}, {"ops": [Ny, Nz], "mixed": False}, {"ops": [N0, NE], "mixed": False},
+        {"ops": [NE, N0], "mixed": False}, {"ops": [N0, N0], "mixed": False}, {"ops": [Nz, I], "mixed": False},
+        {"ops": [Z, N0], "mixed": False}, {"ops": [Nz, Ny, N0], "mixed": False}, {"ops": [N0, NE, Ny, Nz], "mixed": False},
+        {"ops": [op([[[1], 0]], d=N, U=True, lo=0, hi=3), Ny], "mixed": False},
+        {"ops": [Ny, op([[[1], 0], [[2], 3]], d=N, U=True, lo=1, hi=3)], "mixed": False},
+        {"ops": [op([[[0], zsub(0)], [[2], zsub(1, 2)]], d=N, owned=True, depth=2),
+                 op([[[1], zsub(1)], [[2], []]], d=N, owned=True, depth=2)], "mixed": False},
+        {"ops": [op([[[0], zsub(0)], [[1], []]], d=N, depth=2), op([[[0], zsub(1)]], d=N, depth=2),
+                 op([], d=N, owned=True, depth=2)], "mixed": False},
+        {"ops": [op([[[0], 0], [[1], 0]], d=N, owned=True), op([[[1], 0], [[2], 1]], d=N, owned=True, U=True, lo=0, hi=3)],
+         "mixed": False},
+        {"ops": [N0, NT], "mixed": True}, {"ops": [NT, N0], "mixed": True}, {"ops": [NT, NT], "mixed": False},
+    ]
     return cases
 
 
@@ -157,8 +227,16 @@ def streams(tier, rng):
     yield ("random-mixed-arity", [gen_case(rng, mixed=True) for _ in range(m)], False)
     yield ("random-k-ary", [gen_case(rng, k=rng.choice([3, 4])) for _ in range(m)], False)
     yield ("random-owned-interior", [gen_case(rng, owned=True) for _ in range(m)], False)
+    # theme T1 (default None, stored zeros present): 2-ary and k-ary, C and U ranks, unowned and owned,
+    # mixed arity, owned interior
+    q = 240 if tier == "quick" else 5000
+    yield ("none-default", [gen_case(rng, none=True) for _ in range(q)], False)
+    yield ("none-default-k-ary", [gen_case(rng, k=rng.choice([3, 4]), none=True) for _ in range(q // 3)], False)
+    yield ("none-default-mixed-arity", [gen_case(rng, mixed=True, none=True) for _ in range(q // 3)], False)
+    yield ("none-default-owned-interior", [gen_case(rng, owned=True, none=True) for _ in range(q // 3)], False)
     if tier == "thorough":
         yield ("exhaustive-pairs-3^4x3^4", exhaustive_pairs(), True)
+        yield ("exhaustive-none-default-pairs-2x3^3x3^3", exhaustive_pairs_none(), True)
 
 
 def nontrivial(case):
@@ -172,7 +250,10 @@ def describe(case):
             "empty_operand": any(not o["es"] for o in ops),
             "all_default_operand": any(o["es"] and not delivers(o) for o in ops),
             "explicit_default": any(U.has_explicit_default([[0, p] for _, p in o["es"]], o["d"]) for o in ops),
-            "any_U": any(o["U"] for o in ops), "any_owned": any(o["owned"] for o in ops)}
+            "any_U": any(o["U"] for o in ops), "any_owned": any(o["owned"] for o in ops),
+            "none_default": has_none(case),
+            "none_default_stored_zero": any(o["d"] == U.NONE_D and U.has_explicit_default([[0, p] for _, p in o["es"]], 0)
+                                            for o in ops)}
 
 
 # ------------------------------------------------------------------ Coq literals
@@ -207,11 +288,19 @@ def _build(o):
         return f, T
     coords = [c[0] if len(c) == 1 else tuple(c) for c, _ in o["es"]]
     pays = [U.dress(p) if isinstance(p, int) else U.build_fiber(p, d) for _, p in o["es"]]
-    f = Fiber(coords, pays) if coords else Fiber([], [])
+    # touch mode (theme T3): all but the last element, read-only queries, then the last element by append -
+    # anything a read remembered (active range, shape, maximum coordinate, default) is stale afterwards
+    staged = U.MODE["touch"] and len(coords) >= 2
+    if staged:
+        f = Fiber(coords[:-1], pays[:-1])
+    else:
+        f = Fiber(coords, pays) if coords else Fiber([], [])
     if d != 0:
         f._setDefault(U.dress(d))
     if U.MODE["touch"]:
         U.touch(f)
+    if staged:
+        f.append(coords[-1], pays[-1])
     if o["U"]:
         f.getRankAttrs().setFormat("U")
         f.setActive((o["lo"], o["hi"]))
@@ -248,6 +337,9 @@ def _counts(T):
 
 def run_impl(case):
     from fibertree import Fiber, Payload
+    # theme T1: an operand whose default is the sentinel is built with default None (U.dress) and a
+    # None handed out for an absent side is read back as the sentinel (impl_worker resets the flag per case)
+    U.MODE["none_default"] = has_none(case)
     built = [_build(o) for o in case["ops"]]
     fibers = [f for f, _ in built]
     tensors = [t for _, t in built]
@@ -275,6 +367,10 @@ def run_impl(case):
         for i, q in enumerate(f.payloads):
             if q is p:
                 return [0, i]
+        if p is None and U.MODE["none_default"]:
+            # the default None is handed out unboxed (Payload.maybe_box(None) is None): there is no object
+            # whose freshness could be observed; its value is the (sentinel) default
+            return [1, U.NONE_D]
         fresh_ids.append(id(p))
         return [1, _snap_val(p)]
 
